@@ -45,34 +45,47 @@ func buildForeignMux() error {
 
 // foreignLane runs the cases, creates the foreign mux, runs them again.
 func foreignLane(r *mon.Run, prop string, e *env, cases []*Case) {
+	historyLane(r, e, cases, func() error {
+		if err := buildForeignMux(); err != nil {
+			return err
+		}
+		r.Count("foreign_mux_created", 1)
+		return nil
+	}, "after-another-mux-was-created-with-options-for-built-in-keys",
+		fmt.Sprintf("the very same request was served correctly by this (default) mux before an unrelated mux was created with CodecOption / CompressorOption for application/json, application/protobuf, application/octet-stream and gzip (%s)", prop),
+		"foreign-mux", "cases_unchanged_after_foreign_mux")
+}
+
+// historyLane runs the cases, performs the step in between, runs the cases
+// again: a case that passed before must pass afterwards.
+func historyLane(r *mon.Run, e *env, cases []*Case, between func() error, keySuffix, explain, distinctPrefix, counter string) {
 	okBefore := map[int]bool{}
 	for i, c := range cases {
 		o := execCase(e, c)
 		okBefore[i] = len(o.viols) == 0 && o.inconcl == ""
 		apply(r, c, o)
 	}
-	if err := buildForeignMux(); err != nil {
-		r.Inconclusive("harness: foreign mux: " + err.Error())
+	if err := between(); err != nil {
+		r.Inconclusive("harness: " + err.Error())
 		return
 	}
-	r.Count("foreign_mux_created", 1)
 	for i, c := range cases {
 		o := execCase(e, c)
 		if okBefore[i] {
 			for j, v := range o.viols {
 				parts := strings.SplitN(v.key, ":", 3)
 				if len(parts) >= 2 && !strings.HasPrefix(v.key, "panic@") {
-					o.viols[j].key = parts[0] + ":" + parts[1] + ":after-another-mux-was-created-with-options-for-built-in-keys"
+					o.viols[j].key = parts[0] + ":" + parts[1] + ":" + keySuffix
 				}
-				o.viols[j].what += fmt.Sprintf(" - the very same request was served correctly by this (default) mux before an unrelated mux was created with CodecOption / CompressorOption for application/json, application/protobuf, application/octet-stream and gzip (%s)", prop)
+				o.viols[j].what += " - " + explain
 			}
 			if len(o.viols) == 0 {
-				r.Count("cases_unchanged_after_foreign_mux", 1)
+				r.Count(counter, 1)
 			}
 		}
 		o.distinct = ""
 		if len(o.viols) == 0 && okBefore[i] {
-			o.distinct = "foreign-mux|" + c.Class
+			o.distinct = distinctPrefix + "|" + c.Class
 		}
 		apply(r, c, o)
 	}
@@ -132,3 +145,60 @@ func runForeignC04(r *mon.Run, g *gen) {
 }
 
 var _ proto.Message
+
+// runHistoryC04: Accept-table cases on a mux with unary-only extra codecs,
+// before and after server-streaming / bidi HTTP requests on the same mux.
+func runHistoryC04(r *mon.Run, g *gen) {
+	rules := []RuleSpec{
+		{ID: "hist:post", In: "vf.Req", Out: "vf.Req", Verb: "POST", Tmpl: "/h4/echo", Body: "*"},
+		{ID: "hist:get", In: "vf.Req", Out: "vf.Rsp", Verb: "GET", Tmpl: "/h4/get/{a}"},
+		{ID: "hist:server-stream", In: "vf.Req", Out: "vf.Rsp", Verb: "GET", Tmpl: "/h4/stream/{a}", Stream: "server"},
+		{ID: "hist:bidi", In: "vf.Req", Out: "vf.Rsp", Verb: "POST", Tmpl: "/h4/bidi", Body: "*", Stream: "bidi"},
+	}
+	e, err := buildDynamic(rules, muxCustom)
+	if err != nil {
+		r.Inconclusive("harness: " + err.Error())
+		return
+	}
+	var cases []*Case
+	accs := append(append([][]string{nil, {"application/json"}, {"application/protobuf"}, {"*/*"}, {"text/plain"}}, customAccepts...), []string{"application/octet-stream"})
+	types := []string{"", "application/json", "application/protobuf", ctAltEarly, ctAltJSON}
+	for i, acc := range accs {
+		for j := 0; j < 2; j++ {
+			p, err := newPlan(rules[(i+j)%2])
+			if err != nil {
+				return
+			}
+			c, err := g.c04Case(p, muxCustom, types[(i+j)%len(types)], acc, nil)
+			if err != nil {
+				continue
+			}
+			c.Handler = ""
+			delete(c.Req.Header, "Twirp-Version")
+			cases = append(cases, c)
+		}
+	}
+	streamed := 0
+	historyLane(r, e, cases, func() error {
+		for i, acc := range [][]string{nil, {"application/json"}, {"application/protobuf"}, {ctAltEarly}, {"*/*"}, {ctAltJSON + ", application/json;q=0.5"}} {
+			hdr := map[string][]string{}
+			if acc != nil {
+				hdr["Accept"] = acc
+			}
+			q := reqSpec{Verb: "GET", Path: fmt.Sprintf("/h4/stream/s%d", i), Header: hdr}
+			if i%2 == 1 {
+				q = reqSpec{Verb: "POST", Path: "/h4/bidi", Header: map[string][]string{"Content-Type": {"application/json"}}, Body: []byte(`{"a":"x"}{"a":"y"}`)}
+				if acc != nil {
+					q.Header["Accept"] = acc
+				}
+			}
+			resp, calls := serve(e, q)
+			if resp.Panic == nil && len(calls) > 0 {
+				streamed++
+			}
+		}
+		r.Count("history_streaming_requests_served", streamed)
+		return nil
+	}, "after-streaming-requests-on-the-same-mux",
+		"the very same request was answered correctly by this mux before it served server-streaming / bidi HTTP requests", "history", "cases_unchanged_after_streaming_requests")
+}
